@@ -53,6 +53,14 @@ CHECKS["C19"] = dict(
          "A pure function of a list of byte strings whose case analysis is in the length residues: exhaustive over residues is the right level.",
     note="Trusts TLC and the harness's byte logging. Table contents are sampled by seed (the layout does not depend on them, the checksum does linearly). Files larger than a few KB are not generated.")
 
+CHECKS["C11"] = dict(
+    engine="cmap",
+    technique="TLA+ agreement spec over the three windows of a character map (Cmap.tla) and a set-semantics state machine for RuneSet (RuneSet.tla, histories generated by TLC), validated by TLC on observations of corpus fonts (all code points) and synthetic subtables",
+    category="model_checking", design_ref="DESIGN.md §5 C11",
+    text="IterEqLookup, CoverageExact, RangesExact, ScriptsExact are TLA+ predicates over run-length descriptions of (a) NominalGlyph over all 0x110000 code points, (b) Iter, (c) RuneRanges, (d) the coverage/script sets fontscan records; evaluated for corpus faces and ~650 synthetic subtables with boundary structure. "
+         "RuneSet: TLC enumerates every Add/Delete history up to length D over boundary runes; the harness replays it and RuneSetV steps the mathematical set alongside, checking Contains/Len/serialization round trip/includes after every operation.",
+    note="Trusts the harness's run-length compression (funcSegments/setRanges), language.LookupScript as fact (C20), TLC. Quick tier samples 120 corpus files by seed; thorough takes all 738.")
+
 NOT_YET = {}
 NA = {
  "C05": "defined as agreement with the reference C HarfBuzz; no reference shaper (uharfbuzz/hb-shape) exists in this sealed sandbox and re-specifying HarfBuzz in TLA+ would make the spec the reference (DESIGN §6)",
